@@ -135,7 +135,7 @@ def copyRule (data : List Nat) (s : IState) : Done :=
   | _ => .halt .StackUnderflow [] (adv s)
 
 def calldatacopyRule (s : IState) : Done := copyRule s.input s
-/-- CODECOPY copies the contract's own bytes (without the analysis padding of the running buffer) -/
+/-- CODECOPY (legacy code) copies the contract's own bytes (without the analysis padding of the running buffer) -/
 def codecopyRule (s : IState) : Done := copyRule (s.code.take s.origLen) s
 
 /-- RETURNDATACOPY (EIP-211, Byzantium): as above from the return-data buffer, but reading behind its end is the
